@@ -154,7 +154,9 @@ class TSPEnv(RL4COEnvBase):
             self.check_solution_validity(td, actions)
 
         # Gather locations in order of tour and return distance between them (i.e., -reward)
-        locs_ordered = gather_by_index(td["locs"], actions)
+        # (keep the step dimension also for a single-step tour, otherwise the roll in
+        # get_tour_length would run over the batch dimension)
+        locs_ordered = gather_by_index(td["locs"], actions, squeeze=False)
         return -get_tour_length(locs_ordered)
 
     @staticmethod
